@@ -62,10 +62,36 @@ def run(tier, replay=None):
         cls = [(a, b, l) for a in range(0, 3) for b in range(0, 3) for l in range(0, 4)]
         if tier == "quick":
             cls = [c for c in cls if c[0] <= 1 and c[1] <= 1] + [(2, 1, 1), (1, 2, 2), (2, 2, 1)]
+        # strata: ordinary geometry; the same with all coefficients scaled down (the property is relative to the block's own
+        # largest element and the integrals are linear in the coefficients, so an absolute cut-off inside one translation shows
+        # up here); one shell 1e-5..1e-4 bohr from the ECP centre (terms spanning many orders of magnitude); a weakly
+        # overlapping pair (both shells far from the ECP, tight exponents)
+        strata = {}
+        def add(LA, LB, L, stratum, A, B, C, scale=1.0, emin=0.05, emax=50.0):
+            sa = gen.rand_shell(rng, LA, A, emin=emin, emax=emax); sb = gen.rand_shell(rng, LB, B, emin=emin, emax=emax)
+            u = gen.rand_ecp(rng, L, C, nper=(1, 1))
+            for pr in u["p"]:
+                pr["d"] *= scale
+            strata[stratum] = strata.get(stratum, 0) + 1
+            cases.append({"id": "c%d_%d%d%d_%s" % (len(cases), LA, LB, L, stratum), "shells": [sa, sb], "ecps": [u]})
         for (LA, LB, L) in cls:
             for rep in range(2 if tier == "quick" else 4):
                 A, B, C = gen.geometry(rng, "distinct")
-                cases.append({"id": "c%d_%d%d%d" % (len(cases), LA, LB, L), "shells": [gen.rand_shell(rng, LA, A), gen.rand_shell(rng, LB, B)], "ecps": [gen.rand_ecp(rng, L, C, nper=(1, 1))]})
+                add(LA, LB, L, "ordinary", A, B, C)
+            A, B, C = gen.geometry(rng, "distinct")
+            add(LA, LB, L, "scaled1e-6", A, B, C, scale=1e-6)
+            add(LA, LB, L, "scaled1e-9", A, B, C, scale=1e-9)
+            for rep in range(1 if tier == "quick" else 3):
+                A, B, C = gen.geometry(rng, "distinct")
+                dirn = gen.rand_dir(rng); r = rng.loguniform(1e-5, 1e-4)
+                near = [c + r * x for c, x in zip(C, dirn)]
+                if rng.randint(0, 1):
+                    add(LA, LB, L, "near-centre", near, B, C, emin=0.3, emax=5.0)
+                else:
+                    add(LA, LB, L, "near-centre", A, near, C, emin=0.3, emax=5.0)
+                A = [c + x for c, x in zip(C, gen.rand_point(rng, 4.5, 6.0))]; B = [c + x for c, x in zip(C, gen.rand_point(rng, 4.5, 6.0))]
+                add(LA, LB, L, "weak-overlap", A, B, C, emin=1.0, emax=2.5)
+        res.cov["stratum_histogram"] = strata
         cf = os.path.join(tmp, "cases.txt"); gen.write_cases(cf, cases)
         outs = {}
         for var in ("rel", "rel_u0"):
